@@ -39,7 +39,7 @@ use std::time::{Duration, Instant};
 pub const META: PropMeta = PropMeta {
     id: "C12",
     level: "exploration",
-    rule: "case = configuration {timeout in Zero|Ms(1..40)|Long(400ms)|None} x {0..4 timers: expired, +1..40ms, equal to the timeout, later than the timeout, far (1h), Duration::MAX, inserted-then-removed (before or after its deadline passed), inserted-then-disabled, armed-then-re-armed by set_deadline+update (old/new deadline past or future; from no deadline; via Duration::MAX), deadline field changed WITHOUT update (old arming stays in force), late timers inserted between the measured dispatches, self-removing periodic timer, overdue timer whose callback re-arms it with ToDuration(period)} x {0..5 idle sources: ping live/dead, channel live/dead, executor live/scheduler dropped, stream ended/pending, Generic EMPTY/READ quiet, disabled source with pending ping, lifecycle source whose before_sleep takes 80 ms (with a timer 120 ms out), book-style composites of two ping/channel/executor children; live ones optionally used once during warm-up} x optional helper thread (ping|channel send|LoopSignal::wakeup|no-op signal to the loop thread, after 5..25ms); one measured dispatch per case after warm-up, optionally followed by a second measured dispatch (0..40 ms) judged against the timers still armed then (lower bound exact, limiting timer fired, no timer fires twice, upper bound with slack). non-trivial: a follow-up dispatch had to wait although a former / re-armed / already fired timer existed, or (timeout is Some and >= 1 live timer, or a dead-peer source is present) and the dispatch had to wait (L > 0, L = min(timeout, earliest deadline - t_before)). distinct: fingerprint of the normalised configuration",
+    rule: "case = configuration {timeout in Zero|Ms(1..40)|Long(400ms)|None} x {0..4 timers: expired, +1..40ms, equal to the timeout, later than the timeout, far (1h), Duration::MAX, inserted-then-removed (before or after its deadline passed), inserted-then-disabled, armed-then-re-armed by set_deadline+update (old/new deadline past or future; from no deadline; via Duration::MAX), deadline field changed WITHOUT update (old arming stays in force), late timers inserted between the measured dispatches, self-removing periodic timer, overdue timer whose callback re-arms it with ToDuration(period)} x {0..5 idle sources: ping live/dead, channel live/dead, executor live/scheduler dropped, stream ended/pending, Generic EMPTY/READ quiet, disabled source with pending ping, lifecycle source whose before_sleep takes 80 ms (with a timer 120 ms out), book-style composites of two ping/channel/executor children; live ones optionally used once during warm-up} x {idle callbacks queued right before the measured dispatch: none | one pending | one cancelled | both} x optional helper thread (ping|channel send|LoopSignal::wakeup|no-op signal to the loop thread, after 5..25ms); one measured dispatch per case after warm-up, optionally followed by a second measured dispatch (0..40 ms) judged against the timers still armed then (lower bound exact, limiting timer fired, no timer fires twice, upper bound with slack). non-trivial: a follow-up dispatch had to wait although a former / re-armed / already fired timer existed, or (timeout is Some and >= 1 live timer, or a dead-peer source is present) and the dispatch had to wait (L > 0, L = min(timeout, earliest deadline - t_before)). distinct: fingerprint of the normalised configuration",
     assumptions: &[
         "std::time::Instant and the timerfd used by polling both read CLOCK_MONOTONIC; hrtimers never expire early",
         "upper bounds are scheduling-latency bounds: 60 ms slack, only asserted when the same configuration misses 3 times in a row",
@@ -196,6 +196,11 @@ pub struct Case {
     /// the follow-up dispatch is limited by them as by any other armed timer and has to fire them
     #[serde(default)]
     pub late: Vec<u8>,
+    /// idle callbacks queued (LoopHandle::insert_idle) right before the measured dispatch: bit 0 = one pending idle
+    /// callback, bit 1 = one inserted and cancelled again (Idle::cancel). Neither is an event or a wake-up: the
+    /// dispatch waits as long as without them (and runs the pending one afterwards)
+    #[serde(default)]
+    pub queued_idles: u8,
 }
 
 impl Tmo {
@@ -414,8 +419,9 @@ fn case_strategy() -> impl Strategy<Value = Case> {
         (any::<bool>(), 1u8..=40, helper_strategy()),
         prop_oneof![3 => Just(None), 2 => (0u8..=40).prop_map(Some)],
         prop_oneof![3 => Just(vec![]), 2 => proptest::collection::vec(1u8..=30, 1..=2)],
+        prop_oneof![3 => Just(0u8), 1 => Just(1u8), 1 => Just(2u8), 1 => Just(3u8)],
     )
-        .prop_map(|(timeout, mut timers, idle, mut helper, (by_timer, ms, h), follow, late)| {
+        .prop_map(|(timeout, mut timers, idle, mut helper, (by_timer, ms, h), follow, late, queued_idles)| {
             let late = if follow.is_some() { late } else { vec![] };
             // the follow-up dispatch is only judged without a waking helper: mostly generate it that way
             if follow.is_some() && helper.map_or(false, |h| h.kind != HelperKind::Signal && h.delay_ms % 4 != 0) {
@@ -425,7 +431,7 @@ fn case_strategy() -> impl Strategy<Value = Case> {
             if idle.iter().any(|i| matches!(i, Idle::SlowHook)) && timers.len() < 4 && ms % 3 != 0 {
                 timers.push(TimerSpec::AtLate);
             }
-            let mut c = Case { timeout, timers: timers.clone(), idle: idle.clone(), helper, follow, late: late.clone() };
+            let mut c = Case { timeout, timers: timers.clone(), idle: idle.clone(), helper, follow, late: late.clone(), queued_idles };
             let waking_helper = helper.map_or(false, |h| h.kind != HelperKind::Signal);
             if matches!(timeout, Tmo::Long | Tmo::None) && !has_bounding_timer(&c) && !waking_helper {
                 if by_timer {
@@ -437,7 +443,7 @@ fn case_strategy() -> impl Strategy<Value = Case> {
                     let kind = if h.kind == HelperKind::Signal { HelperKind::Wakeup } else { h.kind };
                     helper = Some(Helper { kind, delay_ms: h.delay_ms });
                 }
-                c = Case { timeout, timers, idle, helper, follow, late };
+                c = Case { timeout, timers, idle, helper, follow, late, queued_idles };
             }
             c
         })
@@ -1021,6 +1027,17 @@ fn run_once(c: &Case) -> Obs {
         h.update(&tok).expect("update timer");
     }
 
+    // queued idle callbacks (they do not touch the trace: a dispatch that only ran an idle callback had no event)
+    let idle_ran = std::rc::Rc::new(std::cell::Cell::new(0u32));
+    if c.queued_idles & 1 != 0 {
+        let r = idle_ran.clone();
+        let _ = h.insert_idle(move |_| r.set(r.get() + 1));
+    }
+    if c.queued_idles & 2 != 0 {
+        let r = idle_ran.clone();
+        let idle = h.insert_idle(move |_| r.set(r.get() + 100));
+        idle.cancel();
+    }
     slow_flag.store(true, Ordering::SeqCst);
     let t_before = Instant::now();
     el.dispatch(timeout, &mut trace).expect("measured dispatch");
@@ -1190,6 +1207,12 @@ fn judge(c: &Case, o: &Obs) -> Judgement {
     }
     if c.idle.is_empty() {
         j.classes.push("idle:none");
+    }
+    if c.queued_idles & 1 != 0 {
+        j.classes.push("idle_callback_queued_at_measured_dispatch");
+    }
+    if c.queued_idles & 2 != 0 {
+        j.classes.push("cancelled_idle_callback_queued_at_measured_dispatch");
     }
     let mut seen_labels: Vec<&'static str> = Vec::new();
     for i in &c.idle {
@@ -1750,7 +1773,7 @@ fn cross_product(include_long_waits: bool) -> Vec<Case> {
                     None
                 };
                 let late = if follow.is_some() && timers.iter().any(|t| matches!(t, TimerSpec::Periodic { .. })) { vec![9, 14] } else { vec![] };
-                let c = normalise(&Case { timeout, timers: timers.clone(), idle, helper: None, follow, late });
+                let c = normalise(&Case { timeout, timers: timers.clone(), idle, helper: None, follow, late, queued_idles: (k % 4) as u8 });
                 if !include_long_waits && planned_bound_ms(&c).map_or(true, |b| b > 60) {
                     continue;
                 }
